@@ -117,6 +117,9 @@ func (k *Keeper) SlashAssets(ctx sdk.Context, parameter *types.SlashInputInfo) (
 		}
 	}
 
+	if err := verifFail("operator.SlashAssets.betweenPasses"); err != nil {
+		return nil, err
+	}
 	// slash from the assets pool of the operator
 	opFuncToIterateAssets := func(assetID string, state *assetstype.OperatorAssetInfo) error {
 		slashAmount := newSlashProportion.MulInt(state.TotalAmount).TruncateInt()
